@@ -1,6 +1,10 @@
 //! Kani proof harnesses (engine K of /verif/DESIGN.md). Compiled against /repo's working tree.
 #![allow(dead_code, unused_imports, non_snake_case, unused_mut)]
 #[cfg(kani)]
+mod util;
+#[cfg(kani)]
 mod c16;
 #[cfg(kani)]
 mod gen_c16;
+#[cfg(kani)]
+mod c10;
